@@ -1,10 +1,13 @@
 //! C13: drives dasp_signal::bus::{Bus, Output} through send / next / pending_frames / drop sequences.
 //! Input line:  ops separated by ','   `s` (bus.send()), `n i` (outputs[i].next()),
-//!              `p i` (outputs[i].pending_frames()), `d i` (drop(outputs[i]))
+//!              `p i` (outputs[i].pending_frames()), `d i` (drop(outputs[i])),
+//!              `R i n` (n consecutive outputs[i].next(); compact report for long runs)
 //! The i-th output ever returned by `send` lives in slot i (None once dropped).
 //! Source: `signal::gen_mut` closure yielding 1000 + (number of earlier pulls); the pull counter is shared.
 //! Output: one observation per op, joined by ';':
 //!   `1 slot` send | `2 frame` next | `3 n` pending | `4` drop | `9` slot empty/unknown (no API call possible)
+//!   | `5 first last breaks` run of n next (first/last frame, -1 if n = 0; breaks = number of positions where
+//!     a frame is not its predecessor + 1)
 //!   | `8 code` panic, each followed by: pulls  backlog(hook)  pending of every slot (-1 = dropped)
 use dasp_signal::bus::{Output, SignalBus};
 use dasp_signal::{self as signal, Signal};
@@ -49,7 +52,28 @@ where
                     Err(c) => vec![8, c],
                 }
             }
-            "n" | "p" | "d" => vec![9],
+            "R" if live => {
+                let n = t[2].parse::<usize>().unwrap();
+                let o = outs[i].as_mut().unwrap();
+                match catch(|| {
+                    let (mut first, mut last, mut breaks) = (-1i64, -1i64, 0i64);
+                    for _ in 0..n {
+                        let x = o.next();
+                        if first < 0 {
+                            first = x;
+                        }
+                        if last >= 0 && x != last + 1 {
+                            breaks += 1;
+                        }
+                        last = x;
+                    }
+                    (first, last, breaks)
+                }) {
+                    Ok((a, b, c)) => vec![5, a, b, c],
+                    Err(c) => vec![8, c],
+                }
+            }
+            "n" | "p" | "d" | "R" => vec![9],
             other => panic!("unknown op {}", other),
         };
         let mut v = head;
